@@ -285,6 +285,11 @@ func (e *plEngine) run() {
 	e.w = w
 	e.cnr, e.cnrID = w.C["container"].Hash, w.C["container"].ID
 	e.stranger = DetKey("pl/stranger")
+	e.m = &plModel{}
+	for i := range e.m.ro {
+		e.m.ro[i] = &plRoster{pending: map[int][][]byte{}, committed: map[int][][]byte{}}
+	}
+	e.r.Sweep = e.readAPI
 	e.r.Tracef("world n=%d alphabet=%d-of-%d bigRosters=%v", n, n*2/3+1, n, e.big)
 	// set-up (not part of the judged history): two containers, the first one
 	// with meta-on-chain
@@ -304,10 +309,6 @@ func (e *plEngine) run() {
 		}
 	}
 	e.r.AddBlock(len(txs), 1)
-	e.m = &plModel{}
-	for i := range e.m.ro {
-		e.m.ro[i] = &plRoster{pending: map[int][][]byte{}, committed: map[int][][]byte{}}
-	}
 	e.sh = e.m.clone()
 
 	var pending []*plTx
@@ -332,6 +333,53 @@ func (e *plEngine) run() {
 	if len(pending) > 0 {
 		flush(0, 1)
 	}
+}
+
+// readAPI is the engine's complete read-API view of its world (r.Sweep).
+func (e *plEngine) readAPI() []string {
+	w := e.w
+	s := &ctSweep{w: w}
+	owner := ctOwnerID(DetKey("pl/owner"))
+	for c, cid := range e.cids {
+		if cid == nil {
+			continue // asked before the set-up block
+		}
+		for _, g := range []string{"get", "owner", "alias", "eACL"} {
+			s.add(e.cnr, "container", g, false, cid)
+		}
+		s.add(e.cnr, "container", "replicasNumbers", false, cid)
+		vs := map[int]bool{}
+		for v := 0; v <= plMaxVec+3; v++ {
+			vs[v] = true
+		}
+		for _, v := range append(plSortedVecs(e.m.ro[c].committed), plSortedVecs(e.m.ro[c].pending)...) {
+			vs[v] = true
+		}
+		var vecs []int
+		for v := range vs {
+			vecs = append(vecs, v)
+		}
+		sort.Ints(vecs)
+		for _, v := range vecs {
+			s.add(e.cnr, "container", "nodes", false, cid, int64(v))
+		}
+		// the pending roster is not reachable through the API; it decides what
+		// the next commit fixes, so it is part of what an upgrade must preserve
+		for _, kv := range w.Scan(e.cnrID, append([]byte{'u'}, cid...)) {
+			s.out = append(s.out, fmt.Sprintf("container.pending[%x]=%x", kv.K, kv.V))
+		}
+	}
+	s.add(e.cnr, "container", "count", false)
+	s.add(e.cnr, "container", "list", true, []byte{})
+	s.add(e.cnr, "container", "containersOf", true, []byte{})
+	s.add(e.cnr, "container", "list", true, owner)
+	s.add(e.cnr, "container", "containersOf", true, owner)
+	s.add(w.C["balance"].Hash, "balance", "totalSupply", false)
+	s.add(w.C["netmap"].Hash, "netmap", "config", false, []byte("ContainerFee"))
+	s.add(w.C["netmap"].Hash, "netmap", "config", false, []byte("ContainerAliasFee"))
+	s.add(w.C["netmap"].Hash, "netmap", "epoch", false)
+	s.versions()
+	return s.out
 }
 
 var plCurveN = elliptic.P256().Params().N
@@ -948,11 +996,11 @@ func (e *plEngine) block(pending []*plTx, dt uint64) {
 				}
 			}
 			if accepted && !sound {
-				kf := ""
 				if dupOnly {
-					kf = "dup-member-signature"
+					// the shape of the defect fixed by 4592671 (one member counted repeatedly)
+					r.Count("probe.unsound_accept_explained_by_repeats")
 				}
-				r.Violation("C14/unsound-accept", kf, "%s accepted; committed REP numbers %v, roster sizes %v; some vector has fewer distinct members with a valid signature of the message than its REP", bt.desc, m.ro[bt.cont].reps, e.sizes(m.ro[bt.cont]))
+				r.Violation("C14/unsound-accept", "", "%s accepted; committed REP numbers %v, roster sizes %v; some vector has fewer distinct members with a valid signature of the message than its REP", bt.desc, m.ro[bt.cont].reps, e.sizes(m.ro[bt.cont]))
 			}
 			if bt.kind == plSubmit && accepted && bt.metaBad != "" {
 				r.Violation("C14/submit-accepted-malformed-meta", "", "%s HALTed although: %s", bt.desc, bt.metaBad)
